@@ -688,7 +688,10 @@ class Summariser:
                 for k, t in enumerate(target.elts):
                     self.assign(t, Term(f"{base}[{k}]"), state)
         else:
-            state.effects.append(("store", self.canon(target, env), text(v)))
+            key = self.canon(target, env)
+            state.effects.append(("store", key, text(v)))
+            if isinstance(target, ast.Attribute) and isinstance(v, (Poly, Term)):
+                env["@" + key] = v  # a later read of the attribute on this path sees the stored scalar
 
     # ------------------------------------------------------------------ loops
     def loop(self, st, state) -> State:
@@ -768,6 +771,9 @@ class Summariser:
                 assigned.add(n.func.value.id)
             if isinstance(n, (ast.Break, ast.Yield, ast.YieldFrom, ast.Try)):
                 raise Unsupported(f"{type(n).__name__} inside a loop")
+        for n in ast.walk(ast.Module(body=body, type_ignores=[])):
+            if isinstance(n, ast.Attribute) and isinstance(n.ctx, ast.Store):
+                env.pop("@" + norm(n), None)  # an attribute the loop writes is no longer known by value
         carried = [v for v in sorted(assigned) if v in env and v not in bind]
         for v in carried:  # a byte string that the loop extends is an accumulator
             if isinstance(env[v], Term) and env[v].kind == "bytes":
@@ -943,6 +949,12 @@ class Summariser:
                 a, b = b, a
             kind = getattr(a, "kind", None) if getattr(a, "kind", None) == getattr(b, "kind", None) else None
             return self.cond_term(ctext, a, b, kind)
+        if isinstance(node, ast.Attribute):
+            t = self.canon(node, env)
+            key = "@" + f"{self._c(node.value, env)}.{node.attr}"
+            if key in env:
+                return env[key]
+            return Term(t)
         if isinstance(node, ast.Call):
             return self.call(node, env)
         if isinstance(node, (ast.Compare, ast.BoolOp)) or (isinstance(node, ast.UnaryOp) and isinstance(node.op, ast.Not)):
@@ -1054,7 +1066,8 @@ class Summariser:
         if isinstance(n, ast.Constant):
             return repr(n.value)
         if isinstance(n, ast.Attribute):
-            return f"{self._c(n.value, env)}.{n.attr}"
+            t = f"{self._c(n.value, env)}.{n.attr}"
+            return atom_text(env["@" + t]) if ("@" + t) in env else t
         if isinstance(n, (ast.BinOp,)) or (isinstance(n, ast.UnaryOp) and isinstance(n.op, ast.USub)):
             try:
                 return atom_text(self.ev(n, env))
